@@ -213,6 +213,29 @@ class Verifier:
             else:
                 st.assume(cond_ok)
 
+    # --------------------------------------------------------------- live objects (C13)
+    def is_live(self, v):
+        if isinstance(v, SV):
+            t = v.t.inner if isinstance(v.t, OptT) else v.t
+            return isinstance(t, ObjT) and t.family == 'Live'
+        return False
+
+    def fresh_live(self):
+        return fresh(ObjT('Live'), 'live')
+
+    def live_effect(self, st, label, operand, node):
+        """an operation on a live Python object that may run user code (a user-defined special method,
+        property getter or descriptor): an effect obligation, discharged only under the contract's guard"""
+        if self.spec_mode:
+            return
+        from . import calls
+        calls.add_effect(self, st, label, node, operand=strip_opt(operand) if isinstance(operand, SV) else operand)
+
+    def truth_test(self, st, v, node):
+        if self.is_live(v):
+            self.live_effect(st, 'user:bool', v, node)
+        return truthy(v)
+
     # --------------------------------------------------------------- heap/attrs
     def family(self, name):
         f = self.reg.families.get(name)
@@ -250,6 +273,13 @@ class Verifier:
                 self.may_raise(st, z3.Not(opt_is_none(obj.t, obj.z)), 'AttributeError',
                                'Optional value may be None at .%s' % attr, node)
                 obj = strip_opt(obj)
+            if isinstance(obj.t, ObjT) and obj.t.family == 'Live':
+                fam = self.family('Live')
+                if attr in fam.methods:
+                    return MFn('bound', attr, self_val=obj, spec=fam.methods[attr])
+                self.live_effect(st, 'user:getattr:' + attr, obj, node)
+                f = self.uf('Live.getattr:' + attr, [Ref], Ref)
+                return SV(ObjT('Live'), f(obj.z))
             if isinstance(obj.t, ObjT):
                 fam = self.family(obj.t.family)
                 if attr in fam.attr_requires and not self.spec_mode:
@@ -333,7 +363,8 @@ class Verifier:
     def wrap_name(self, name, v):
         if isinstance(v, FnSpec):
             return MFn('spec', name, spec=v)
-        if isinstance(v, (SV, MFn, MCls, MNS, MTup, MList)) or v is MNONE:
+        from .values import MOpaqueSet
+        if isinstance(v, (SV, MFn, MCls, MNS, MTup, MList, MOpaqueSet)) or v is MNONE:
             return v
         if isinstance(v, (int, str, bool)) or v is None:
             return self.lit(v)
@@ -467,7 +498,7 @@ class Verifier:
     def ev_UnaryOp(self, node, st):
         v = self.ev(node.operand, st)
         if isinstance(node.op, ast.Not):
-            return SV(BOOL, z3.Not(truthy(v)))
+            return SV(BOOL, z3.Not(self.truth_test(st, v, node)))
         if isinstance(node.op, ast.USub):
             return SV(INT, -pack(v, INT))
         if isinstance(node.op, ast.UAdd):
@@ -484,7 +515,7 @@ class Verifier:
     def _boolop_rest(self, first, rest, is_and, st, prev_node=None):
         if not rest:
             return first
-        c = truthy(first)
+        c = self.truth_test(st, first, prev_node)
         go = c if is_and else z3.Not(c)       # condition under which the rest is evaluated
         go = simp(go)
         if z3.is_false(go):
@@ -520,7 +551,7 @@ class Verifier:
         return r
 
     def ev_IfExp(self, node, st):
-        c = simp(truthy(self.ev(node.test, st)))
+        c = simp(self.truth_test(st, self.ev(node.test, st), node))
         if z3.is_true(c):
             return self.ev(node.body, st)
         if z3.is_false(c):
@@ -599,6 +630,12 @@ class Verifier:
             if not b.items:
                 return z3.BoolVal(False)
             return z3.Or(*[py_eq(a, i) for i in b.items])
+        from .values import MOpaqueSet
+        if isinstance(b, MOpaqueSet):
+            if isinstance(a, SV) and isinstance(a.t, ObjT):
+                f = self.uf('member[%s]' % b.name, [Ref], z3.BoolSort())
+                return f(a.z)
+            raise Unsupported('membership of %r in %s' % (a, b.name))
         from . import paths
         if isinstance(b, paths.MPathParents):
             return paths.is_proper_ancestor(pack(a, PATH), b.p.z) if isinstance(a, SV) and a.t == PATH \
@@ -713,6 +750,11 @@ class Verifier:
                            'subscript of Optional value that may be None', node)
             base = strip_opt(base)
         sl = node.slice
+        if self.is_live(base):
+            if not isinstance(sl, ast.Slice):
+                self.ev(sl, st)
+            self.live_effect(st, 'user:getitem', base, node)
+            return self.fresh_live()
         if isinstance(sl, ast.Slice):
             lo = self.ev(sl.lower, st) if sl.lower is not None else None
             hi = self.ev(sl.upper, st) if sl.upper is not None else None
@@ -958,6 +1000,8 @@ class Verifier:
         if isinstance(it, SV) and isinstance(it.t, TupT):
             return tuple_items(it)
         if isinstance(it, MEnum):
+            if not isinstance(it.items, list):
+                return None
             return [MTup([self.lit(k), v]) for k, v in enumerate(it.items, it.start)]
         if isinstance(it, MRev):
             inner = self.iter_items(it.inner, st, node)
@@ -1258,7 +1302,7 @@ class Verifier:
         return [Outcome(RAISE, st, MExc(cls.name, args))]
 
     def st_If(self, s, st):
-        c = simp(truthy(self.ev(s.test, st)))
+        c = simp(self.truth_test(st, self.ev(s.test, st), s))
         outs = []
         self.drain_exc(outs)
         if z3.is_true(c):
